@@ -356,7 +356,7 @@ def run(ctx):
     st = State()
     pt = install(ctx, st)
     g = cfg()
-    for _ in range(ctx.n(4000, 400000)):
+    for _ in range(ctx.n(4000, 100000)):
         p = gp.gen_pep(ctx.rng, g)
         req = gen_request(ctx.rng, len(p.seq))
         run_case(ctx, st, pt, p, req)
